@@ -18,7 +18,7 @@ def root():
     return d
 
 
-def program(ncalls, delay=400000):
+def program(ncalls, delay=1000000):   # ~175 ms of computation between calls: a fault 'before request k' is over when call k starts
     body = ['    (println "p0")']
     for i in range(1, ncalls + 1):
         body.append('    (println (labs -%d))' % i)
